@@ -15,6 +15,7 @@ import Asn1Model.TypeCheck
 import Asn1Model.Cache
 import Asn1Model.X696
 import Asn1Model.X691
+import Asn1Model.Extension
 import Asn1Model.X690Value
 import Asn1Model.X690
 import Asn1Model.X690Strict
@@ -444,6 +445,67 @@ def opRefDecStrict (args : List Sx) : String :=
       | none => "none"
     | none, _ => "bad-type"
     | _, none => "bad-hex"
+  | _ => "bad-args"
+
+/-- `project <ty1> <ty2> <val>`: the version-1 view of a version-2 value and the `Extends` checker
+(C07), answers `ok <value> extends=<T|F>` -/
+def opProject (args : List Sx) : String :=
+  match args with
+  | [t1, t2, v] =>
+    match sxTy? t1, sxTy? t2, sxVal? v with
+    | some ty1, some ty2, some val =>
+      "ok " ++ valToStr (Ext.project ty1 ty2 val) ++ " extends=" ++ b2s (Ext.extendsB ty1 ty2)
+    | none, _, _ => "bad-type"
+    | _, none, _ => "bad-type"
+    | _, _, none => "bad-value"
+  | _ => "bad-args"
+
+/-- `c07 <fwd|bwd> <codec> <ty1> <ty2> <val>`: hypotheses and conclusion of the C07 theorems.
+`fwd`: `val` is a version-2 value, encoded under `ty2`, decoded under `ty1`, expected `canon ty1 (project ty1 ty2 val)`;
+`bwd`: `val` is a version-1 value, encoded under `ty1`, decoded under `ty2`, expected `canon ty2 val`
+(`canon` = `X690.canonV` for der).  Arbitrary further input must be left untouched. -/
+def opC07 (args : List Sx) : String :=
+  match args with
+  | [.atom dir, .atom codec, t1, t2, v] =>
+    match sxTy? t1, sxTy? t2, sxVal? v with
+    | some ty1, some ty2, some val =>
+      let fwd := dir == "fwd"
+      let tD := if fwd then ty1 else ty2
+      let tE := if fwd then ty2 else ty1
+      let want := if fwd then Ext.project ty1 ty2 val else val
+      let common := s!"extends={b2s (Ext.extendsB ty1 ty2)} wf={b2s (ty1.wf && ty2.wf && Oer.oerWf ty1 && Oer.oerWf ty2)} hasType={b2s (hasType tE val)}"
+      match codec with
+      | "uper" =>
+        let hyps := common ++ s!" defaults={b2s (ty1.defaultsOk && ty2.defaultsOk)} side={b2s (Uper.fragFree tE val)}"
+        match Uper.enc tE val with
+        | .error e => hyps ++ " enc=err:" ++ uperErr e
+        | .ok bits =>
+          let rest : Bits := [true, false, true]
+          match Uper.dec tD (bits.length + rest.length + 2) (bits ++ rest) with
+          | .error e => hyps ++ " enc=ok dec=err:" ++ uperErr e
+          | .ok (w, r) => hyps ++ s!" enc=ok dec=ok value={b2s (w == canon tD want)} rest={b2s (r == rest)}"
+      | "oer" =>
+        let hyps := common ++ s!" defaults={b2s (ty1.defaultsOk && ty2.defaultsOk)} side={b2s (Oer.utf8Ok tE val)}"
+        match Oer.enc tE val with
+        | .error e => hyps ++ " enc=err:" ++ uperErr e
+        | .ok bytes =>
+          let rest : Bytes := [1, 2, 255]
+          match Oer.dec tD (bytes ++ rest) with
+          | .error e => hyps ++ " enc=ok dec=err:" ++ uperErr e
+          | .ok (w, r) => hyps ++ s!" enc=ok dec=ok value={b2s (w == canon tD want)} rest={b2s (r == rest)}"
+      | "der" =>
+        let hyps := common ++ s!" defaults={b2s (X690.defaultsOkV ty1 && X690.defaultsOkV ty2)} side=T"
+        match Der.encode tE val with
+        | .error e => hyps ++ " enc=err:" ++ uperErr e
+        | .ok bytes =>
+          let rest : Bytes := [0, 0, 255]
+          match Der.dec tD none (bytes.length + 1) (bytes ++ rest) with
+          | .error e => hyps ++ " enc=ok dec=err:" ++ uperErr e
+          | .ok none => hyps ++ " enc=ok dec=err:TagMismatch"
+          | .ok (some (w, k, r)) =>
+            hyps ++ s!" enc=ok dec=ok value={b2s (w == X690.canonV tD want)} rest={b2s (r == rest && k == bytes.length)}"
+      | _ => "bad-codec"
+    | _, _, _ => "bad-args"
   | _ => "bad-args"
 
 end Asn1.Proto
